@@ -27,6 +27,7 @@ package main
 
 import (
 	"bufio"
+	"bytes"
 	"encoding/binary"
 	"encoding/hex"
 	"errors"
@@ -706,6 +707,100 @@ func codecPattern(i int) byte { return byte(i*7 + i>>11 + 13) }
 // codecItemStep: item i has size + i*codecItemStep bytes.
 var codecItemStep = 7
 
+// codecBurstRead: the reading side over a real connection. The peer writes one frame of `first` bytes (the source buffer grows) and
+// then `n` tiny frames in a single write, then stays silent; the reader hands out every frame from a callback chain that re-arms
+// AsyncReadNext from inside the callback (frames that are already buffered are handed out without touching the transport).
+func codecBurstRead(first, n int) (ok bool, why string) {
+	runtime.LockOSThread()
+	defer runtime.UnlockOSThread()
+	ioc, err := sonic.NewIO()
+	if err != nil {
+		return false, "newio"
+	}
+	defer ioc.Close()
+	ln, err := net.Listen("tcp", "127.0.0.1:0")
+	if err != nil {
+		return false, "listen"
+	}
+	defer ln.Close()
+	conn, err := sonic.Dial(ioc, "tcp", ln.Addr().String())
+	if err != nil {
+		return false, "dial"
+	}
+	defer conn.Close()
+	peer, err := ln.Accept()
+	if err != nil {
+		return false, "accept"
+	}
+	defer peer.Close()
+	src, dst := sonic.NewByteBuffer(), sonic.NewByteBuffer()
+	cc, err := sonic.NewCodecConn[[]byte, []byte](conn, frame.NewCodec(src), src, dst)
+	if err != nil {
+		return false, "codecconn"
+	}
+	var wire []byte
+	put := func(p []byte) {
+		var h [4]byte
+		binary.BigEndian.PutUint32(h[:], uint32(len(p)))
+		wire = append(append(wire, h[:]...), p...)
+	}
+	big := make([]byte, first)
+	for i := range big {
+		big[i] = byte(i * 13)
+	}
+	put(big)
+	if _, err := peer.Write(wire); err != nil {
+		return false, "peer write"
+	}
+	wire = wire[:0]
+	for i := 0; i < n; i++ {
+		put([]byte{byte(i), byte(i >> 8), 0x5a})
+	}
+	got, bad, failed := 0, "", false
+	var next func()
+	next = func() {
+		cc.AsyncReadNext(func(err error, item []byte) {
+			if err != nil {
+				bad, failed = fmt.Sprintf("after %d frames: %v", got, err), true
+				return
+			}
+			switch {
+			case got == 0 && !bytes.Equal(item, big):
+				bad = "the first frame differs from what was sent"
+			case got > 0 && (len(item) != 3 || item[0] != byte(got-1) || item[1] != byte((got-1)>>8) || item[2] != 0x5a):
+				bad = fmt.Sprintf("frame %d is %x", got, item)
+			}
+			got++
+			if bad == "" && got < n+1 {
+				next()
+			}
+		})
+	}
+	next()
+	sent := false
+	quiet := time.Now()
+	for got < n+1 && bad == "" && !failed && time.Since(quiet) < 1500*time.Millisecond {
+		before := got
+		_ = ioc.RunOneFor(5 * time.Millisecond)
+		if got == 1 && !sent {
+			sent = true
+			if _, err := peer.Write(wire); err != nil {
+				return false, "peer write"
+			}
+		}
+		if got != before {
+			quiet = time.Now()
+		}
+	}
+	if bad != "" {
+		return false, bad
+	}
+	if got != n+1 {
+		return false, fmt.Sprintf("%d of %d frames were handed out (the peer sent one frame of %d bytes, then %d 3-byte frames in one write, and nothing more); %d bytes are left in the source buffer", got, n+1, first, n, src.ReadLen()+src.WriteLen())
+	}
+	return true, ""
+}
+
 // codecFastPeer: default socket buffers and a peer that reads from the start, concurrently with the writer, so that a large item
 // goes out in a long run of short writes none of which would block.
 var codecFastPeer = 0 // 1: reads from the start, small socket buffers; 2: reads from the start, default buffers
@@ -879,6 +974,11 @@ func codecDirect(seed uint64, tier string, args []string, w *bufio.Writer) {
 		}
 		codecItemStep = 7
 		// large items to a peer that drains as fast as they are written: one AsyncWriteNext is many short writes in a row
+		for _, v := range [][2]int{{16 << 10, 3000}, {100, 1500}, {70000, 9000}} {
+			if ok, why := codecBurstRead(v[0], v[1]); !ok {
+				fail("real-transport", "burst read: "+why)
+			}
+		}
 		for _, v := range [][3]int{{1, 80, 1 << 20}, {1, 25, 4 << 20}, {2, 14, 24 << 20}} {
 			fn := v[1]
 			if tier == "thorough" {
